@@ -476,7 +476,7 @@ func modeCodec(tier string, args []string) {
 	if tier == "thorough" {
 		rounds = 60
 		bigEvery = 10
-		giantBudget = 2
+		largeN = 8000 // 65535 names take the list-based model tens of minutes per message: not part of the correspondence runs
 	}
 	n := 0
 	for r := 0; r < rounds; r++ {
